@@ -430,6 +430,26 @@ func runCheck(prop, tier, repo string, verbose bool, only string, timeout int) i
 		}
 		obls = f
 	}
+	if tier == "thorough" && (prop == "C04" || prop == "C03") && only == "" {
+		vo, msg := keccakVectorObligations(lib, repo)
+		if msg != "" {
+			notes["spec vectors: "+msg] = true
+		}
+		for _, o := range vo {
+			o.Prop = []string{prop}
+		}
+		obls = append(obls, vo...)
+	}
+	if tier == "thorough" && (prop == "C05" || prop == "C18") && only == "" {
+		vo, msg := poseidonVectorObligations(lib, repo)
+		if msg != "" {
+			notes["spec vectors: "+msg] = true
+		}
+		for _, o := range vo {
+			o.Prop = []string{prop}
+		}
+		obls = append(obls, vo...)
+	}
 	tGen := time.Since(t0) - tLoad
 	to := 10
 	all := false
@@ -554,6 +574,26 @@ func runCheck(prop, tier, repo string, verbose bool, only string, timeout int) i
 			exit = 2
 		}
 	}
+	// thorough tier: the replay harness of the property (real functions against an independent reference on the
+	// harness's sweep of inputs) is run even when every obligation was discharged
+	harness := ""
+	if tier == "thorough" && viol == 0 && len(replays[prop]) > 0 && os.Getenv("VERIF_NO_REPLAY") == "" {
+		dummy := &Obligation{Name: "harness-sweep", Func: ""}
+		failing, out, ran := runReplay(repo, prop, dummy)
+		if ran && failing != "" {
+			viol++
+			exit = 1
+			rp := filepath.Join(verifDir, "replays", prop+"-harness-sweep.json")
+			b, _ := json.MarshalIndent(map[string]interface{}{"property": prop, "obligation": "harness-sweep", "failing_input": json.RawMessage(failing), "replay_output": trunc(out, 4000)}, "", " ")
+			os.WriteFile(rp, b, 0o644)
+			fmt.Printf("VIOLATION property=%s replay=%s obligation=harness-sweep\n", prop, rp)
+		} else if ran {
+			harness = "replay harness sweep on the unchanged code: no failure (" + replays[prop][0].Test + ")"
+		} else {
+			harness = "replay harness could not be run: " + trunc(out, 200)
+		}
+		fmt.Println(harness)
+	}
 	// evidence
 	var trusted []string
 	trusted = append(trusted, "govc VC generator (engine/*.go): symbolic execution of the typed Go AST, value model of DESIGN.md §3")
@@ -593,6 +633,7 @@ func runCheck(prop, tier, repo string, verbose bool, only string, timeout int) i
 			"vacuous":                  nCanBad,
 			"infeasible_paths":         nInfeasible,
 			"samples":                  samples,
+			"harness":                  harness,
 			"explanation":              "contract-based deductive verification: every obligation is generated from /repo's current source by govc and discharged by an SMT solver; see DESIGN.md",
 		},
 		"assumptions": assumptions,
